@@ -1475,6 +1475,48 @@ pub fn drive_c10(a: &Args) {
         next_id += 1000;
         results.extend(run_replace_jobs(items, subj2, vec![vec![], vec![88], vec![la, lb]], seed ^ la as u64, a.thorough()));
     }
+    // three letters x < y < z: classes that are NOT intervals ({x,z} without y), repeated and followed / preceded by
+    // another class; every subject up to length 4 over the three letters (a search that loops on x and z and then
+    // meets y sits between two classes numerically)
+    for (ti, (x, y, z)) in [(97u32, 98u32, 99u32), (0x60, 0x100, 0x10000)].into_iter().enumerate() {
+        let ch = |c: u32| Box::new(T::Chr(c));
+        let cls: Vec<T> = vec![
+            T::Chr(x), T::Chr(y), T::Chr(z), T::Alt2(ch(x), ch(z)), T::Alt2(ch(x), ch(y)), T::Rng(x, z), T::AllChar,
+        ];
+        let mut pats3: Vec<T> = vec![];
+        for c1 in &cls {
+            let heads = vec![T::Star(Box::new(c1.clone())), T::Plus(Box::new(c1.clone())), T::Loop(Box::new(c1.clone()), 1, Some(2))];
+            for h in heads {
+                for c2 in &cls {
+                    pats3.push(T::Cat2(Box::new(h.clone()), Box::new(c2.clone())));
+                    pats3.push(T::Cat2(Box::new(c2.clone()), Box::new(h.clone())));
+                }
+            }
+        }
+        let pats3: Vec<T> = pats3.into_iter().map(|t| t.smt_form()).filter(|t| t.cost() <= COST_LIMIT).collect();
+        let mut subj3: Vec<Vec<u32>> = vec![vec![]];
+        let mut fr: Vec<Vec<u32>> = vec![vec![]];
+        for _ in 0..4 {
+            let mut nx = vec![];
+            for w in &fr {
+                for &c in &[x, y, z] {
+                    let mut v = w.clone();
+                    v.push(c);
+                    nx.push(v);
+                }
+            }
+            subj3.extend(nx.iter().cloned());
+            fr = nx;
+        }
+        let items: Vec<(usize, T, bool)> = pats3
+            .into_iter()
+            .enumerate()
+            .filter(|(i, _)| a.thorough() || (i + ti) % 2 == (a.seed as usize) % 2)
+            .map(|(i, t)| (next_id + i, t, true))
+            .collect();
+        next_id += 1000;
+        results.extend(run_replace_jobs(items, subj3, vec![vec![], vec![88], vec![x, y]], seed ^ z as u64, a.thorough()));
+    }
     for v in results {
         out.emit(v);
     }
